@@ -17,13 +17,15 @@ def generate(G):
         ([2], [2, 2, 2], "rank1-in-rank3"),
         ([1, 1, 2], [2, 2, 2], "two-leading-units"),
         ([2, 1], [1, 3], "both-sides"),
+        ([2, 1], [2, 2, 2], "rank2-trailing-unit-in-rank3"),
+        ([2, 1, 2], [2, 2, 1, 2], "rank3-interior-unit-in-rank4"),
         ([2, 1, 1, 2], [2, 2, 2, 2], "rank4-two-interior-units"),
     ]
     quick = {("lower-rank", 1, 1), ("lower-rank", 2, 1), ("leading-unit", 1, 1), ("leading-unit", 2, 1),
              ("trailing-unit", 2, 1), ("interior-unit", 2, 1), ("all-unit-rank1", 2, 1), ("all-unit-rank2", 3, 1),
              ("rank2-in-rank3", 1, 1), ("rank2-in-rank3", 2, 2), ("rank2-leading-unit-in-rank3", 2, 1),
              ("lower-rank", 3, 2), ("no-broadcast", 2, 2), ("leading-unit", 3, 2), ("two-units", 2, 1),
-             ("rank1-in-rank3", 2, 1), ("both-sides", 2, 1)}
+             ("rank1-in-rank3", 2, 1), ("both-sides", 2, 1), ("rank2-trailing-unit-in-rank3", 1, 1)}
     progs = {1: ("Mul", 1), 2: ("BcastTwice", 2), 3: ("BcastThrice", 3)}
     for xd, yd, cls in classes:
         out = G.bcast(xd, yd)
@@ -40,7 +42,7 @@ def generate(G):
                     ls.append(G.leaf(yd, dom, tracked=(i == 0)))
                 G.ob(id, "C03", "shape",
                      "grad::grad_passes(s, &programs::%s, %s, Seed::Explicit(Dom::%s), false, %d)" % (prog, G.leaves(ls), dom, passes),
-                     unwind=n + G.numel(xd) + 3, tier=tier, heavy=(n >= 8 and u == 3),
+                     unwind=n + G.numel(xd) + 3, tier=tier, heavy=(u >= 2 or passes >= 2 or n >= 8),
                      skeleton={"x": xd, "partner": yd, "class": cls, "uses": u, "passes": passes, "program": prog},
                      domains="values and per-pass seeds: %s" % dom)
     for xd, yd, cls, tier in [([3], [2, 3], "lower-rank", "quick"), ([1, 3], [2, 3], "leading-unit", "quick"),
